@@ -237,6 +237,74 @@ def check_faulty(rec, rng, cid, tmpdir, counter):
                 sys.path[:] = path_before
 
 
+def check_edited_module(rec, rng, cid, tmpdir, counter):
+    """a module object that was accepted before is edited (one fault) and
+    offered again: the verdict belongs to what the module is NOW"""
+    from nanite import model
+    from nanite.model.core import ModelError
+    for _ in range(4):
+        counter[0] += 1
+        key = "hm_edit_%d_%d_%d" % (cid[0], cid[1], counter[0])
+        mod = module_from_source(BASE_SRC.replace("KEY", key), key)
+        try:
+            model.register_model(mod)
+        except BaseException as e:  # noqa
+            rec.violation("edited-module/valid-version-rejected/"
+                          + type(e).__name__,
+                          "the valid base module was rejected: %s"
+                          % str(e)[:80], {"id": cid})
+            return
+        keep = bool(rng.random() < .5)
+        if not keep:
+            model.deregister_model(mod)
+        fault = FAULTS[int(rng.integers(len(FAULTS)))]
+        kind, attr = fault
+        if fault in (("delete", "model_key"), ("permute", "defaults")) or (
+                kind == "delete" and attr == "get_parameter_defaults"
+                and False):
+            fault = ("duplicate", "parameter_names")
+            kind, attr = fault
+        if kind == "delete":
+            if hasattr(mod, attr):
+                delattr(mod, attr)
+        elif kind == "lengthen":
+            setattr(mod, attr, list(getattr(mod, attr)) + ["x_extra"])
+        elif kind == "shorten":
+            setattr(mod, attr, list(getattr(mod, attr))[:-1])
+        elif kind == "permute":
+            keys = list(mod.parameter_keys)
+            keys[0], keys[1] = keys[1], keys[0]
+            mod.parameter_keys = keys
+        else:
+            names = list(mod.parameter_names)
+            names[1] = names[0]
+            mod.parameter_names = names
+        case = {"id": cid, "kind": "edited-module", "fault": list(fault),
+                "valid version still registered": keep}
+        before = registry_state()
+        rec.event("modules edited after acceptance and offered again")
+        rec.evaluated(dg=("edited", fault, keep, cid, counter[0]))
+        try:
+            model.register_model(mod)
+        except ModelError:
+            pass
+        except BaseException as e:  # noqa
+            rec.violation("edited-module/%s-%s/not-a-model-error/%s"
+                          % (kind, attr, type(e).__name__),
+                          "module edited after acceptance (fault %s) "
+                          "rejected with %s (%s) instead of a model error"
+                          % (fault, type(e).__name__, str(e)[:80]), case)
+        else:
+            rec.violation("edited-module/%s-%s/accepted" % fault,
+                          "a module that was accepted before, then edited "
+                          "(fault %s), was accepted again" % (fault,), case)
+        after = registry_state()
+        rec.check(after == before, "edited-module/registry-changed",
+                  "registry changed by a rejected module: %s"
+                  % sorted(set(after) ^ set(before)), case)
+        model.models_available.pop(key, None)
+
+
 def check_sequence(rec, rng, cid, tmpdir, counter):
     """(b) random registry sequences against a dict model"""
     from nanite import model
@@ -682,6 +750,7 @@ def run_all(rec, rng, cid, tmpdir, counter, with_faults):
     check_key_reuse(rec, rng, cid, tmpdir, counter)
     check_ancillaries(rec, rng, cid)
     check_derived(rec, rng, cid, tmpdir, counter)
+    check_edited_module(rec, rng, cid, tmpdir, counter)
 
 
 def run_shard(rec, tier, seed, shard, nshards):
